@@ -34,6 +34,8 @@ func init() {
 			{"C10.TABLEINDEX", "zzControlBad_C10_TABLEINDEX", true},
 			{"C10.STRBOUNDS", "zzControlBad_C10_STRBOUNDS", true},
 			{"C10.STRBOUNDS", "zzControlGood_C10_STRBOUNDS", false},
+			{"C10.TYPEDNIL", "zzControlBad_C10_TYPEDNIL", true},
+			{"C10.TYPEDNIL", "zzControlGood_C10_TYPEDNIL", false},
 			{"C10.TABLEINDEX", "zzControlGood_C10_TABLEINDEX", false},
 		},
 	})
@@ -46,6 +48,8 @@ func rulesC10(c *Ctx) {
 	ruleTerminalNil(c, "C10.TERMINALNIL")
 	ruleMakeThenAppend(c, "C10.MAKEAPPEND", "ast", "boltz", "objectz")
 	ruleStringBounds(c, "C10.STRBOUNDS", "ast", "zitiql")
+	ruleTypedNil(c, "C10.TYPEDNIL", "ast", "objectz", "zitiql")
+	ruleSymbolSameName(c, "C10.SYMSAME")
 	ruleC10LexErr(c)
 	ruleC10Panic(c)
 	ruleC10NilRecv(c)
